@@ -266,6 +266,13 @@ def rule_f10(chk: Check, ix: Index, rule_id: str = "F10-merged-literals"):
                         guarded = True
             if a.func.attr != "append" or not guarded:
                 bad.append(f"`{norm_stmt(a)[:60]}` adds to the parts without the both-are-Constants merge test")
+    # a merge that builds a new Constant (instead of extending the first one in place) carries the first piece's `kind` over
+    for i in own_nodes(f.node):
+        if isinstance(i, ast.If) and norm_stmt(i.test).count("isinstance(") >= 2 and norm_stmt(i.test).count("ast.Constant") >= 2:
+            for c in [c for b in i.body for c in ast.walk(b) if isinstance(c, ast.Call) and norm_stmt(c.func) == "ast.Constant"]:
+                kw = {k.arg: norm_stmt(k.value) for k in c.keywords}
+                if "kind" not in kw or ".kind" not in kw["kind"]:
+                    bad.append(f"the merged literal is a new `ast.Constant(...)` without the first piece's `kind` (u'a' f'b{{x}}' loses kind='u')")
     chk.require(not bad, rule_id, "Parser.concatenate_strings:values", f.where,
                 f"pieces reach JoinedStr.values unmerged: {bad[:2]} — `f'{{a}}x' 'y' f'{{b}}'` then has two Constants in a row where CPython "
                 f"has one")
@@ -697,6 +704,8 @@ def run(chk: Check):
     rule_f1(chk, ix, F)
     rule_f2(chk, F, chk.tier == "thorough")
     rule_f10(chk, ix)
+    from .inventory import rule_scanner_refusals
+    rule_scanner_refusals(chk, ix, "F11-scanner-refusals")
     rule_f5b(chk, ix)
     rule_f2_order(chk, ix, F)
     rule_f3(chk, ix)
